@@ -342,3 +342,36 @@ CHECKS["C15"] = dict(
         technique="exhaustive single- and pair-fault enumeration over the allocator/mapping request sequence of each call on the real code",
         ref="DESIGN.md 3/C15"),
 )
+
+CHECKS["C07"] = dict(
+    level="model_checking",
+    jobs=lambda tier: [dict(name="c07", variant="pic", sources=["e_c07.c"] + RT)],
+    coverage=lambda stats, tier: dict(
+        states=int(stats.get("distinct_states", stats.get("states", 0))), transitions=int(stats.get("transitions", 0)),
+        traces_validated_against_impl=int(stats.get("transitions", 0)),
+        evaluations=int(stats.get("evaluations", 0)), distinct_nontrivial=int(stats.get("distinct_states", 0)),
+        rule="explicit-state BFS on the real library: state = complete writable image of the library (crypt's static object, crypt_gensalt's "
+             "buffer, setkey/encrypt key schedule, every other static) + caller objects A (aligned, zero start), B (address +5, 0xA5 start), "
+             "C (crypt_ra handle) + errno, hashed over all its bytes; alphabet = crypt_rn/crypt_r on A, crypt_rn on B, crypt_ra on C, crypt, "
+             "xcrypt/fcrypt for 8 (quick) / 16 (thorough) method representatives x 2 phrases and 4 failing requests (forbidden byte, unknown "
+             "prefix, malformed rounds, 600-byte phrase), crypt_gensalt/crypt_gensalt_rn for 5 prefixes x 2 entropy lengths, crypt(P, "
+             "crypt_gensalt()) uncopied, setkey x2, encrypt x2, crypt_checksalt x2; depth cap 3 (quick) / 4 (thorough); first-level operations "
+             "are dealt to 16 shards and distinct states are merged by hash; every transition runs the implementation and compares the call's "
+             "result with the same call made alone from the pristine state (encrypt: with the key-register model); the first 64 states of every "
+             "shard are re-materialised by replaying their history and must hash identically",
+        shards_closed=int(stats.get("shards_closed", 0)), shards_capped=int(stats.get("shards_capped", 0)),
+        max_depth=int(stats.get("max_depth", 0)), operations=int(stats.get("operations", 0)), state_bytes=int(stats.get("state_bytes", 0)),
+        replayed_states=int(stats.get("replayed_states", 0))),
+    assumptions=["heap state other than the crypt_ra block is not part of the state (the library allocates nothing else that survives a call)",
+                 "arbitrary object contents / all 16 alignments / uninitialised objects are covered by C04's placement slab and MSan job"],
+    nonvacuous=lambda s, t: None if s.get("distinct_states", 0) > 200 and s.get("transitions", 0) > 20000 else "state space too small",
+    deadline=dict(quick=300, thorough=1700),
+    manifest=dict(
+        text="Explicit-state model checking directly on the implementation: breadth-first search over API call histories with the complete mutable "
+             "state (library writable image found through dl_iterate_phdr, three caller objects, errno) captured, hashed and restored byte-for-"
+             "byte; a hidden static, a stale buffer, an unwiped context or an errno dependency is part of the state by construction. Differential "
+             "oracle: each call's result equals its solo result; entry points agree; setkey/encrypt follow a key-register model.",
+        note="gcc -O2 -fPIC shared build of the working tree so that the writable image is separable; depth-bounded (3/4) where the space does not close; hash collisions (64-bit) are ignored.",
+        technique="explicit-state BFS over operation histories on the real code with full-state capture/restore and hashing",
+        ref="DESIGN.md 3/C07"),
+)
